@@ -7,7 +7,7 @@ All guards are literals of one BDag.
 import itertools as _it
 import collections as _co
 from .bdag import BDag, TRUE, FALSE, RandomEvaluator
-from .solver import PipeSolver
+from .solver import make_solver
 
 
 class LiftError(Exception):
@@ -125,10 +125,13 @@ class Engine:
         if self.solver is not None:
             self.solver.close()
         self.dag = BDag()
-        self.solver = PipeSolver(self.dag)
+        self.solver = make_solver(self.dag)
         self.rand = RandomEvaluator(self.dag)
         self.precheck_hits = 0
         self.gstack = []
+        self.fstack = []      # parallel to gstack: literals marked 'known false' by that push
+        self.false_cnt = {}   # literal -> number of active pushes that make it false
+        self.narrow = {}      # boolean literal c -> (lits false when c holds, lits false when c fails)
         self.cum = [TRUE]
         self.frames = [Frame(0)]
         self.assumptions = []
@@ -145,10 +148,65 @@ class Engine:
     def push(self, lit):
         self.gstack.append(lit)
         self.cum.append(self.dag.and_(self.cum[-1], lit))
+        marked = []
+        if lit != TRUE:
+            self._collect_false(lit, marked, 0)
+            fc = self.false_cnt
+            for l in marked:
+                fc[l] = fc.get(l, 0) + 1
+        self.fstack.append(marked)
 
     def pop(self):
         self.gstack.pop()
         self.cum.pop()
+        fc = self.false_cnt
+        for l in self.fstack.pop():
+            c = fc[l] - 1
+            if c:
+                fc[l] = c
+            else:
+                del fc[l]
+
+    def _collect_false(self, p, out, depth):
+        """literals that are certainly false on every path on which p holds (structural facts only)"""
+        out.append(p ^ 1)
+        nr = self.narrow.get(p)
+        if nr:
+            out.extend(nr[0])
+        nr = self.narrow.get(p ^ 1)
+        if nr:
+            out.extend(nr[1])
+        if not (p & 1) and depth < 6:
+            nd = self.dag.nodes[p >> 1]
+            if nd is not None and nd[0] == 'and':
+                self._collect_false(nd[1], out, depth + 1)
+                self._collect_false(nd[2], out, depth + 1)
+
+    def known_false(self, g, depth=0):
+        if g == FALSE:
+            return True
+        if g == TRUE:
+            return False
+        if g in self.false_cnt:
+            return True
+        if not (g & 1) and depth < 4:
+            nd = self.dag.nodes[g >> 1]
+            if nd[0] == 'and':
+                return self.known_false(nd[1], depth + 1) or self.known_false(nd[2], depth + 1)
+        return False
+
+    def feasible(self, g):
+        """False only if g cannot hold on the current path (syntactic folding or path facts)"""
+        if g == FALSE or self.known_false(g):
+            return False
+        return self.dag.and_(g, self.g()) != FALSE
+
+    def note_bool(self, c, true_guards, false_guards):
+        """c == OR(true_guards), all guards mutually exclusive: remember what c decides"""
+        if c in (TRUE, FALSE) or (not true_guards and not false_guards):
+            return
+        if c not in self.narrow and len(self.narrow) < 2000000:
+            self.narrow[c] = (tuple(false_guards), tuple(true_guards))
 
     def local(self):
         fr = self.frames[-1]
@@ -159,7 +217,7 @@ class Engine:
 
     def fail(self, lit, kind, msg=''):
         """record that an error happens under lit (already conjoined with guard)"""
-        if lit == FALSE:
+        if lit == FALSE or self.known_false(lit):
             return
         lit = self.dag.and_(lit, self.dead ^ 1)
         if lit == FALSE:
@@ -205,7 +263,9 @@ class Engine:
         if len(out) == 1:
             return out[0][1]
         if all(type(v) is bool for _, v in out):
-            return SB(d.any_(g for g, v in out if v))
+            c = d.any_(g for g, v in out if v)
+            self.note_bool(c, [g for g, v in flat if v is True], [g for g, v in flat if v is False])
+            return SB(c)
         return U(out)
 
     def merge(self, c, a, b):
@@ -318,6 +378,8 @@ class Engine:
         res = []
         g0 = self.g()
         for combo in _it.product(*parts, *[p for _, p in kparts]):
+            if any(self.known_false(g) for g, _ in combo):
+                continue
             gg = d.all_(g for g, _ in combo)
             if d.and_(gg, g0) == FALSE:
                 continue
@@ -340,7 +402,7 @@ class Engine:
         vals = []
         g0 = self.g()
         for g, v in u.alts:
-            if self.dag.and_(g, g0) == FALSE:
+            if self.known_false(g) or self.dag.and_(g, g0) == FALSE:
                 continue
             try:
                 vals.append((g, getattr(v, name)))
@@ -396,7 +458,7 @@ def PER_ALT(u, fn):
     res = []
     d = E.dag
     for g, v in u.alts:
-        if d.and_(g, E.g()) == FALSE:
+        if not E.feasible(g):
             continue
         E.push(g)
         try:
@@ -1108,6 +1170,13 @@ def EQ(a, b):
     if a is b:
         return TRUE
     if isinstance(a, (U, SB)) or isinstance(b, (U, SB)):
+        if isinstance(a, U) and not isinstance(b, (U, SB)) or isinstance(b, U) and not isinstance(a, (U, SB)):
+            u, o = (a, b) if isinstance(a, U) else (b, a)
+            parts = [(g, EQ(v, o)) for g, v in u.alts]
+            c = d.any_(d.and_(g, e) for g, e in parts)
+            if all(e in (TRUE, FALSE) for _, e in parts):
+                E.note_bool(c, [g for g, e in parts if e == TRUE], [g for g, e in parts if e == FALSE])
+            return c
         return d.any_(d.all_([g, h, EQ(v, w)]) for g, v in E.alts(a) for h, w in E.alts(b))
     if isinstance(a, (GSet, FSet)) or isinstance(b, (GSet, FSet)):
         if not isinstance(a, (GSet, FSet)):
@@ -1186,9 +1255,9 @@ def SPLIT(test):
     g = E.g()
     d = E.dag
     out = []
-    if d.and_(g, c) != FALSE or g == FALSE and False:
+    if d.and_(g, c) != FALSE and not E.known_false(c):
         out.append(_Branch(True, c))
-    if d.and_(g, c ^ 1) != FALSE:
+    if d.and_(g, c ^ 1) != FALSE and not E.known_false(c ^ 1):
         out.append(_Branch(False, c ^ 1))
     return out
 
@@ -1213,8 +1282,8 @@ def ENTER():
 def LEAVE(fr):
     assert E.frames[-1] is fr
     E.frames.pop()
-    del E.gstack[fr.base:]
-    del E.cum[fr.base + 1:]
+    while len(E.gstack) > fr.base:
+        E.pop()
 
 
 def RET(fr, value):
@@ -1287,6 +1356,8 @@ def FOR(fr, lp, iterable):
     """yield (ctx, value) for each guarded element"""
     d = E.dag
     for g, v in ITER(iterable):
+        if E.known_false(g):
+            continue
         gg = d.all_([g, lp.broken ^ 1, fr.returned ^ 1])
         if d.and_(E.g(), gg) == FALSE:
             continue
@@ -2054,7 +2125,7 @@ def _bind(shape, v):
 def COMP_FOR(iterable, shape, lam):
     d = E.dag
     for g, v in ITER(iterable):
-        if d.and_(E.g(), g) == FALSE:
+        if not E.feasible(g):
             continue
         E.push(g)
         try:
@@ -2065,7 +2136,7 @@ def COMP_FOR(iterable, shape, lam):
 
 def COMP_IF(cond, thunk):
     c = E.lit(cond)
-    if E.dag.and_(E.g(), c) == FALSE:
+    if not E.feasible(c):
         return
     E.push(c)
     try:
